@@ -692,6 +692,52 @@ def app_limit_history(rng):
     return g.ops
 
 
+def window_history(rng):
+    """C04/C01: between the failure of a request of application A and the processing of its hand-back, the processor handles a
+    harvest and a transaction of application B (both are ready at once; Go's select may take them in this order).  What is
+    handed back for A is still exactly what A's agents submitted."""
+    g = Gen(rng, napps=2, profile="allok", timeout=0)
+    for i in (1, 2):
+        g.ops.append("proc defapp k%d lic=LIC%d name=app%d redirect=- lang=php ver=1.%d host=h%d dt=0 span=10000 log=10000 custom=30000 docker=-" % (i, i, i, i, i))
+        g.apps.append("k%d" % i)
+    runs = {}
+    for h in g.apps:
+        g.nrun += 1
+        run = "r%d%s" % (g.nrun, "qwzjkvbxyp"[g.nrun % 10] * 3)
+        g.ops.append("proc app %s run=-" % h)
+        g.ops.append("proc reply %s preconnect 0 200 host=coll-%s.example" % (h, h))
+        # identical limits for both applications: their reservoirs have the same capacities
+        g.ops.append("proc reply %s connect 0 200 run=%s rp=5000 ee=- ae=- ce=- se=- le=- srp=5000 sl=- rules=- hdr=-" % (h, run))
+        runs[h] = run
+    a, b = rng.sample(g.apps, 2)
+    ra, rb = runs[a], runs[b]
+    bit, cmd, key = rng.choice([(32, "custom_event_data", "ce"), (64, "error_event_data", "ee"), (128, "span_event_data", "se"),
+                                (256, "log_event_data", "le"), (16, "analytic_event_data", "ev")])
+
+    def txn(run, n):
+        ids = g.fresh(1 if key == "ev" else n)
+        g.ops.append("proc txn %s name=t1 pid=1 prio=%d %s=%s" % (run, rng.randrange(1000000), key, ",".join(map(str, ids))))
+    for _ in range(rng.randint(1, 3)):
+        txn(ra, rng.randint(1, 3))
+    if rng.random() < 0.5:
+        txn(rb, 2)
+    g.ops.append("proc trigger %s %d" % (ra, bit))
+    g.ops.append("proc park")
+    g.ops.append("proc reply %s %s 0 %s" % (ra, cmd, rng.choice(["503", "429", "500", "408"])))
+    g.ops.append("proc trigger %s %d direct=1" % (rb, bit))
+    for _ in range(rng.randint(1, 3)):
+        txn(rb, rng.randint(1, 3))
+        g.ops[-1] += " direct=1"
+    g.ops.append("proc unpark")
+    g.ops.append("proc state")
+    for run in (ra, rb):
+        g.ops.append("proc trigger %s %d" % (run, bit))
+        g.drain(run, "200")
+    g.ops.append("proc state")
+    g.ops.append("proc cleanexit default=200")
+    return g.ops
+
+
 def rule_change_history(rng):
     """C07: the rename rules are those of the run's own connect reply.  An application connects with one rule list, reports
     metrics, is restarted by the collector at a harvest (409) and reconnects with another rule list (or none); possibly again"""
